@@ -225,7 +225,7 @@ class PlanJoinTablesQuery:
             raise NotImplementedError()
         return sequence
 
-    def check_node_condition(self, node):
+    def check_node_condition(self, node, only_models=False):
 
         col_idx = 0
         if len(node.args) == 2:
@@ -254,6 +254,8 @@ class PlanJoinTablesQuery:
         table_info = self.get_table_for_column(arg1)
         if table_info is None:
             raise PlanningException(f'Table not found for identifier: {arg1.to_string()}')
+        if only_models and table_info.predictor_info is None:
+            return
 
         # keep only column name
         arg1.parts = [arg1.parts[-1]]
@@ -289,6 +291,18 @@ class PlanJoinTablesQuery:
                 self.check_node_condition(node)
 
         self.query_context['binary_ops'] = binary_ops
+
+    def check_join_conditions(self, join_sequence):
+        # 'model.column = value' as a condition of an inner join says the same as in 'where': it is an input of the model
+        #   (the filters of the tables are taken from the join conditions when the tables are fetched)
+        for item in join_sequence:
+            if not isinstance(item, TableInfo) or item.join_condition is None:
+                continue
+            if (item.join_type or 'JOIN').upper() not in ('JOIN', 'INNER JOIN'):
+                continue
+            for node in self.get_conjuncts(item.join_condition):
+                if isinstance(node, BinaryOperation) and node.op == '=':
+                    self.check_node_condition(node, only_models=True)
 
     def check_outer_joins(self, join_sequence):
         # find tables whose rows can be replaced with NULLs: the ones on the other side of an outer join
@@ -437,6 +451,7 @@ class PlanJoinTablesQuery:
         query_traversal(query, _check_identifiers)
 
         self.check_query_conditions(query)
+        self.check_join_conditions(join_sequence)
         self.check_outer_joins(join_sequence)
 
         # workaround for 'model join table': swap tables:
